@@ -185,6 +185,11 @@ class GenerateConfmaps(_GenBase):
             ok.append(("rank", False))
         else:
             ok.append(("xy", V.i_eq(instance.shape[-1], 2)))
+        if instance.rank == 4:
+            # domain: at least one sample.  The batch axis is not in the property's quantifier
+            # (every call site passes exactly one sample); with zero samples the rank-4 branch's
+            # view(n, -1, 2) is ambiguous and torch raises.
+            ok.append(("samples>=1", V.i_le(1, instance.shape[0])))
         return ok
 
     def spec(self, c, instance, img_hw, sigma=1.5, output_stride=2):
